@@ -21,13 +21,14 @@
 /* ghost assertion: an intermediate fact the caller-visible contract needs */
 #define VERIF_GHOST_ASSERT(cond, msg)	__CPROVER_assert((cond), msg)
 
-/* cut point: the check may end symbolic execution here (see /verif) */
-#define VERIF_CUT(name) \
-    do { \
-	extern _Bool verif_cut_##name; \
-	if (verif_cut_##name) \
-	    __CPROVER_assume(0); \
-    } while (0)
+/*
+ * cut point: a check may end symbolic execution here by defining
+ * VERIF_CUT_<name> as __CPROVER_assume(0) on its command line
+ */
+#ifndef VERIF_CUT_rfi_after_search
+#define VERIF_CUT_rfi_after_search	((void)0)
+#endif
+#define VERIF_CUT(name)			VERIF_CUT_##name
 
 #else /* !LIBVNA_VERIF */
 
